@@ -428,9 +428,18 @@ impl Machine {
         let mut d = vec![];
         let mut bad = false;
         collect_data(stmts, 0, &mut d, &mut bad);
-        self.direct_errors = unmatched || targets.iter().any(|t| !self.line_nums.contains(t)) || !d.is_empty() || bad;
+        let other_errors = unmatched || targets.iter().any(|t| !self.line_nums.contains(t));
+        self.direct_errors = other_errors || !d.is_empty() || bad;
         self.tr = None;
         self.pc = entry;
+        if !d.is_empty() || bad {
+            // DATA is illegal in a direct line; together with other compile errors the report is not defined
+            if other_errors {
+                return End::Undefined("direct line with DATA and another compile error".into());
+            }
+            self.ev.push(REv::Err(ILLEGAL_DIRECT.to_string(), None));
+            return self.stop();
+        }
         if self.direct_errors {
             self.ev.push(REv::CompileErrors);
             return self.stop();
